@@ -1,6 +1,6 @@
 (** C01 — core evaluation matches the language definition.  One equation per clause of the
     definition, each about one iteration of EVAL's loop as transcribed in Eval.v. *)
-From Lisp Require Import Base Value Core Binder Env Eval Interp EvalProofs Run.
+From Lisp Require Import Base Value Core Binder Env Eval Interp EvalProofs TailProofs Run.
 From Lisp.Gen Require Import Examples.
 
 (** def evaluates its operand, binds the name IN THE CURRENT SCOPE and returns the value *)
@@ -51,6 +51,38 @@ Theorem C01_call_closure : forall n d s p args cur env st params body fenv vs st
 Proof. exact eval_call_closure. Qed.
 
 (** computed instances: closure counter, recursion, & rest, arity error, argument order *)
+(** the elements of a call form — the callee FIRST, then the arguments — are evaluated exactly once each,
+    left to right, each in the state left by the previous one, before anything is applied *)
+Theorem C01_callee_then_arguments_left_to_right : forall ev d x xs env st,
+  eval_list ev d (x :: xs) env st =
+  prop (ev (S d) x env st) (fun v st1 => prop (eval_list ev d xs env st1) (fun vs st2 => (Ok (v :: vs), st2))).
+Proof. exact eval_list_left_to_right. Qed.
+
+(** let: a fresh scope; the bindings are evaluated in order IN that scope (later ones see earlier
+    ones); the body's last form continues in it *)
+Theorem C01_let_new_scope_then_body : forall n d a1 body cur env st,
+  macro_of st (VList (sy "let" :: a1 :: body) cur) env = None ->
+  eval (S n) d (VList (sy "let" :: a1 :: body) cur) env st =
+  prop (new_env (Some env) st) (fun let_env st1 =>
+  prop (lift (get_slice a1) st1) (fun arr st2 =>
+  if Nat.odd (length arr) then (Err (lisp_goerr (s_ "let: odd elements on binding vector") (get_position a1)), st2) else
+  prop (let_binds (eval n) d let_env a1 arr st2) (fun _ st3 =>
+  prop (do_forms (eval n) d (sy "let" :: a1 :: body) 2 true let_env st3) (fun last st4 =>
+  eval n d last let_env st4)))).
+Proof. exact eval_let. Qed.
+
+Theorem C01_let_bindings_are_sequential : forall ev d let_env a1 name p e r st,
+  let_binds ev d let_env a1 (VSym name p :: e :: r) st =
+  prop (ev (S d) e let_env st) (fun v st1 => prop (env_set let_env name v st1) (fun _ st2 => let_binds ev d let_env a1 r st2)).
+Proof. exact let_binds_sequential. Qed.
+
+(** do evaluates its forms in order and continues with the last *)
+Theorem C01_do_in_order : forall n d forms cur env st,
+  macro_of st (VList (sy "do" :: forms) cur) env = None ->
+  eval (S n) d (VList (sy "do" :: forms) cur) env st =
+  prop (do_forms (eval n) d (sy "do" :: forms) 1 true env st) (fun last st' => eval n d last env st').
+Proof. exact eval_do. Qed.
+
 Example C01_counter : observe ex_c01_counter = s_ "V l 2 i 3 i 1 | l 0 ". Proof. vm_compute. reflexivity. Qed.
 Example C01_fact : observe ex_c01_fact = s_ "V i 3628800 | l 0 ". Proof. vm_compute. reflexivity. Qed.
 Example C01_rest_params : observe ex_c01_rest = s_ "V l 2 i 1 l 2 i 2 i 3 | l 0 ". Proof. vm_compute. reflexivity. Qed.
@@ -61,3 +93,7 @@ Print Assumptions C01_def_current_scope_returns_value.
 Print Assumptions C01_closure_captures_defining_scope.
 Print Assumptions C01_if_selected_branch_only.
 Print Assumptions C01_call_closure.
+Print Assumptions C01_callee_then_arguments_left_to_right.
+Print Assumptions C01_let_new_scope_then_body.
+Print Assumptions C01_let_bindings_are_sequential.
+Print Assumptions C01_do_in_order.
